@@ -889,13 +889,13 @@ var c17APISpecs = []c17Spec{
 	{Type: "rsa-2048"},
 }
 
-func TestVerif_C17_APIHistory(t *testing.T) {
+func TestVerif_C17_History(t *testing.T) {
 	seed := kit.Seed(17)
 	shard := c17Shard()
 	r := kit.NewResult(t, "c17-api-history", seed, "case = one seeded history of 40 requests against the transit backend (HandleRequest, in-memory storage, cached and cache-less, backend restarts) over up to three key rings of one type: create, rotate, keys/config with valid and invalid min_decryption/min_encryption/deletion_allowed, trim, backup, restore (forced over the same name, non-forced, to a sibling name), soft-delete and its restore, delete and re-create, encrypt/decrypt single and batch (with tampered items), rewrap, sign, hmac; after every request the key read-back must equal the reference model, remembered ciphertexts/signatures/HMACs (newest per key version + sample) are replayed against every ring and must be accepted with the original content iff the ring exists, is not soft-deleted, min_dec <= version <= latest and that version holds the generating key, producers must refuse versions below min_encryption_version, outputs are re-checked with the Go primitives on the stored key material, storage must hold key material for [min_available, latest] and none for trimmed versions or deleted keys; a history is non-trivial when its request sequence is distinct")
 	defer r.Write(t)
 	ctx := context.Background()
-	n := kit.N(192, 800)
+	n := kit.N(192, 2400)
 	for i := 0; i < n; i++ {
 		id := fmt.Sprintf("api:%d:%d", shard, i)
 		if !kit.WantCase(id) {
